@@ -275,6 +275,54 @@ func c08Escape(c *core.Ctx, r *core.Reporter) {
 	writer := map[string]bool{}
 	escapesChar := map[rune]bool{}
 	hasCtl := false
+	// the escape table may be a switch in the body or a package-level map literal the body indexes
+	var tableLits []ast.Node
+	ast.Inspect(qd.Body, func(x ast.Node) bool {
+		ie, ok := x.(*ast.IndexExpr)
+		if !ok {
+			return true
+		}
+		if v, ok := core.ObjOf(pq.TypesInfo, ie.X).(*types.Var); ok && v.Parent() == pq.Types.Scope() {
+			for _, f := range pq.Syntax {
+				for _, d := range f.Decls {
+					gd, ok := d.(*ast.GenDecl)
+					if !ok {
+						continue
+					}
+					for _, sp := range gd.Specs {
+						vs, ok := sp.(*ast.ValueSpec)
+						if !ok {
+							continue
+						}
+						for i, nm := range vs.Names {
+							if pq.TypesInfo.Defs[nm] == types.Object(v) && i < len(vs.Values) {
+								tableLits = append(tableLits, vs.Values[i])
+							}
+						}
+					}
+				}
+			}
+		}
+		return true
+	})
+	for _, tl := range tableLits {
+		ast.Inspect(tl, func(x ast.Node) bool {
+			kv, ok := x.(*ast.KeyValueExpr)
+			if !ok {
+				return true
+			}
+			if tv, ok := pq.TypesInfo.Types[kv.Key]; ok && tv.Value != nil && tv.Value.Kind() == constant.Int {
+				v, _ := constant.Int64Val(tv.Value)
+				escapesChar[rune(v)] = true
+			}
+			if tv, ok := pq.TypesInfo.Types[kv.Value]; ok && tv.Value != nil && tv.Value.Kind() == constant.String {
+				if sv := constant.StringVal(tv.Value); len(sv) >= 2 && sv[0] == '\\' {
+					writer[string(sv[1])] = true
+				}
+			}
+			return true
+		})
+	}
 	ast.Inspect(qd.Body, func(x ast.Node) bool {
 		switch y := x.(type) {
 		case *ast.BasicLit:
@@ -388,29 +436,37 @@ func c08BlockQuote(c *core.Ctx, r *core.Reporter) {
 		return
 	}
 	info := p.TypesInfo
+	// "before" is the order in which the statements are met walking getDescription and, at their call, the phases it has
+	// been split into
 	var replPos, wrapPos token.Pos
-	ast.Inspect(fd.Body, func(x ast.Node) bool {
+	seq := token.Pos(0)
+	c.InspectWithFresh(info, fd.Body, func(x ast.Node) bool {
 		call, ok := x.(*ast.CallExpr)
 		if !ok {
 			return true
 		}
+		seq++
 		f := core.CalleeObj(info, call)
 		if f != nil && f.Pkg() != nil && f.Pkg().Path() == "strings" && (core.N(f) == "Replace" || core.N(f) == "ReplaceAll") && len(call.Args) >= 3 {
 			if constString(info, call.Args[1]) == `"""` && strings.Contains(constString(info, call.Args[2]), `\"""`) {
-				replPos = call.Pos()
+				replPos = seq
 			}
 		}
 		// wrapping: a composite literal / concatenation containing the `"""` constant
 		if f != nil && core.N(f) == "join" {
 			if strings.Count(core.ExprString(call), "`\"\"\"`") >= 2 || strings.Contains(core.ExprString(call), `"\"\"\""`) {
-				wrapPos = call.Pos()
+				wrapPos = seq
 			}
 		}
 		return true
 	})
 	if wrapPos == token.NoPos {
 		// fall back: any use of the `"""` constant twice in one expression
-		ast.Inspect(fd.Body, func(x ast.Node) bool {
+		seq = 0
+		c.InspectWithFresh(info, fd.Body, func(x ast.Node) bool {
+			if _, isCall := x.(*ast.CallExpr); isCall {
+				seq++
+			}
 			if cl, ok := x.(*ast.CompositeLit); ok {
 				n := 0
 				for _, e := range cl.Elts {
@@ -419,7 +475,7 @@ func c08BlockQuote(c *core.Ctx, r *core.Reporter) {
 					}
 				}
 				if n >= 2 {
-					wrapPos = cl.Pos()
+					wrapPos = seq + 1
 				}
 			}
 			return true
@@ -429,7 +485,7 @@ func c08BlockQuote(c *core.Ctx, r *core.Reporter) {
 		r.Unknown("getDescription/wrap", fd.Pos(), "could not find where the description is wrapped in triple quotes")
 		return
 	}
-	r.Check(replPos != token.NoPos && replPos < wrapPos, "getDescription/escape-triple-quote", wrapPos,
+	r.Check(replPos != token.NoPos && replPos < wrapPos, "getDescription/escape-triple-quote", fd.Pos(),
 		"triple quotes in the text are replaced by \\\"\"\" before wrapping",
 		"the description text is wrapped in triple quotes without escaping a triple quote inside it: such a description prints as text that does not parse back")
 }
